@@ -13,14 +13,15 @@ def A.mayR (a : A) (o : Nat) : Prop := a.top = true ∨ o ∈ a.r
 
 def absE (e : Edge) : AEdge := (e.1.1, e.2.1, e.2.2.1)
 
-/-- written / returned parameters are covered by the abstract state -/
+/-- the part of the relation that holds whether or not the execution completed (the analysis never forgets it):
+written parameters, returned objects and heap edges are covered by the abstract state -/
 def WRel (np : Nat) (σ : St) (a : A) : Prop :=
-  (∀ o, o ∈ σ.written → o.1 < np → a.mayW o.1) ∧ (∀ o, o ∈ σ.returned → o.1 < np → a.mayR o.1)
+  (∀ o, o ∈ σ.written → o.1 < np → a.mayW o.1) ∧ (∀ o, o ∈ σ.returned → a.mayR o.1) ∧
+  (∀ e, e ∈ σ.heap → a.mayE (absE e))
 
-/-- every variable's object, every heap edge and every allocated object is covered -/
+/-- every variable's object and every allocated object is covered too -/
 def Rel (np : Nat) (σ : St) (a : A) : Prop :=
-  (∀ x o, σ.env x = some o → a.may x o.1) ∧ (∀ e, e ∈ σ.heap → a.mayE (absE e)) ∧
-  (∀ o, o ∈ σ.objs → a.mayK o.1) ∧ WRel np σ a
+  (∀ x o, σ.env x = some o → a.may x o.1) ∧ (∀ o, o ∈ σ.objs → a.mayK o.1) ∧ WRel np σ a
 
 theorem lookup_filter_ne {β : Type} (l : List (Var × β)) (x y : Var) (h : y ≠ x) :
     (l.filter (fun p => p.1 != x)).lookup y = l.lookup y := by
@@ -137,16 +138,16 @@ theorem mayR_join_r (a b : A) (o : Nat) (h : b.mayR o) : (joinA a b).mayR o := b
   · right; simp [joinA, h]
 
 theorem wrel_join_l {np σ} (a b : A) (h : WRel np σ a) : WRel np σ (joinA a b) :=
-  ⟨fun o h1 h2 => mayW_join_l a b _ (h.1 o h1 h2), fun o h1 h2 => mayR_join_l a b _ (h.2 o h1 h2)⟩
+  ⟨fun o h1 h2 => mayW_join_l a b _ (h.1 o h1 h2), fun o h1 => mayR_join_l a b _ (h.2.1 o h1),
+   fun e he => mayE_join_l a b _ (h.2.2 e he)⟩
 theorem wrel_join_r {np σ} (a b : A) (h : WRel np σ b) : WRel np σ (joinA a b) :=
-  ⟨fun o h1 h2 => mayW_join_r a b _ (h.1 o h1 h2), fun o h1 h2 => mayR_join_r a b _ (h.2 o h1 h2)⟩
+  ⟨fun o h1 h2 => mayW_join_r a b _ (h.1 o h1 h2), fun o h1 => mayR_join_r a b _ (h.2.1 o h1),
+   fun e he => mayE_join_r a b _ (h.2.2 e he)⟩
 
 theorem rel_join_l {np σ} (a b : A) (h : Rel np σ a) : Rel np σ (joinA a b) :=
-  ⟨fun x o h1 => may_join_l a b x _ (h.1 x o h1), fun e he => mayE_join_l a b _ (h.2.1 e he),
-   fun o ho => mayK_join_l a b _ (h.2.2.1 o ho), wrel_join_l a b h.2.2.2⟩
+  ⟨fun x o h1 => may_join_l a b x _ (h.1 x o h1), fun o ho => mayK_join_l a b _ (h.2.1 o ho), wrel_join_l a b h.2.2⟩
 theorem rel_join_r {np σ} (a b : A) (h : Rel np σ b) : Rel np σ (joinA a b) :=
-  ⟨fun x o h1 => may_join_r a b x _ (h.1 x o h1), fun e he => mayE_join_r a b _ (h.2.1 e he),
-   fun o ho => mayK_join_r a b _ (h.2.2.1 o ho), wrel_join_r a b h.2.2.2⟩
+  ⟨fun x o h1 => may_join_r a b x _ (h.1 x o h1), fun o ho => mayK_join_r a b _ (h.2.1 o ho), wrel_join_r a b h.2.2⟩
 
 /-- what `leA a b = true` gives when `b` is not top -/
 theorem leA_parts {a b : A} (h : leA a b = true) (hb : ¬ b.top = true) :
@@ -198,15 +199,17 @@ theorem le_mayR {a b : A} (h : leA a b = true) (o : Nat) (hm : a.mayR o) : b.may
     · right; exact hr o hm
 
 theorem wrel_le {np σ} {a b : A} (h : leA a b = true) (hr : WRel np σ a) : WRel np σ b :=
-  ⟨fun o h1 h2 => le_mayW h _ (hr.1 o h1 h2), fun o h1 h2 => le_mayR h _ (hr.2 o h1 h2)⟩
+  ⟨fun o h1 h2 => le_mayW h _ (hr.1 o h1 h2), fun o h1 => le_mayR h _ (hr.2.1 o h1),
+   fun e he => le_mayE h _ (hr.2.2 e he)⟩
 
 theorem rel_le {np σ} {a b : A} (h : leA a b = true) (hr : Rel np σ a) : Rel np σ b :=
-  ⟨fun x o h1 => le_may h x _ (hr.1 x o h1), fun e he => le_mayE h _ (hr.2.1 e he),
-   fun o ho => le_mayK h _ (hr.2.2.1 o ho), wrel_le h hr.2.2.2⟩
+  ⟨fun x o h1 => le_may h x _ (hr.1 x o h1), fun o ho => le_mayK h _ (hr.2.1 o ho), wrel_le h hr.2.2⟩
+
+theorem wrel_top {np σ} : WRel np σ topA :=
+  ⟨fun _ _ _ => Or.inl rfl, fun _ _ => Or.inl rfl, fun _ _ => Or.inl rfl⟩
 
 theorem rel_top {np σ} : Rel np σ topA :=
-  ⟨fun _ _ _ => Or.inl rfl, fun _ _ => Or.inl rfl, fun _ _ => Or.inl rfl,
-   ⟨fun _ _ _ => Or.inl rfl, fun _ _ _ => Or.inl rfl⟩⟩
+  ⟨fun _ _ _ => Or.inl rfl, fun _ _ => Or.inl rfl, wrel_top⟩
 
 theorem may_set_ne {a : A} {x y : Var} {ps : List Nat} {o : Nat} (hne : y ≠ x) (h : a.may y o) :
     (a.set x ps).may y o := by
@@ -276,11 +279,12 @@ theorem reach_closed {a : A} {σ : St} {c : List Nat} (hnt : ¬ a.top = true)
     · exact absurd ht hnt
     · exact closed_step hc hm ho
 
-/-- the analysis never forgets a possibly-written or possibly-returned parameter -/
+/-- the analysis never forgets a possibly-written parameter, a possibly-returned object or a heap edge -/
 theorem w_mono (np : Nat) (s : Stmt) :
-    ∀ (a : A), (∀ o, a.mayW o → (ana np s a).mayW o) ∧ (∀ o, a.mayR o → (ana np s a).mayR o) := by
+    ∀ (a : A), (∀ o, a.mayW o → (ana np s a).mayW o) ∧ (∀ o, a.mayR o → (ana np s a).mayR o) ∧
+      (∀ e, a.mayE e → (ana np s a).mayE e) := by
   induction s with
-  | skip => intro a; exact ⟨fun o h => h, fun o h => h⟩
+  | skip => intro a; exact ⟨fun o h => h, fun o h => h, fun e h => h⟩
   | bind x src =>
     intro a
     cases src with
@@ -288,47 +292,62 @@ theorem w_mono (np : Nat) (s : Stmt) :
       show (∀ o, a.mayW o → (if closedB a.heap (closeN a.heap (a.heap.length + 1) (ys.flatMap a.raw).eraseDups) then
           a.set x (closeN a.heap (a.heap.length + 1) (ys.flatMap a.raw).eraseDups) else topA).mayW o) ∧
         (∀ o, a.mayR o → (if closedB a.heap (closeN a.heap (a.heap.length + 1) (ys.flatMap a.raw).eraseDups) then
-          a.set x (closeN a.heap (a.heap.length + 1) (ys.flatMap a.raw).eraseDups) else topA).mayR o)
+          a.set x (closeN a.heap (a.heap.length + 1) (ys.flatMap a.raw).eraseDups) else topA).mayR o) ∧
+        (∀ e, a.mayE e → (if closedB a.heap (closeN a.heap (a.heap.length + 1) (ys.flatMap a.raw).eraseDups) then
+          a.set x (closeN a.heap (a.heap.length + 1) (ys.flatMap a.raw).eraseDups) else topA).mayE e)
       split
-      · exact ⟨fun o h => h, fun o h => h⟩
-      · exact ⟨fun _ _ => Or.inl rfl, fun _ _ => Or.inl rfl⟩
-    | _ => exact ⟨fun o h => h, fun o h => h⟩
+      · exact ⟨fun o h => h, fun o h => h, fun e h => h⟩
+      · exact ⟨fun _ _ => Or.inl rfl, fun _ _ => Or.inl rfl, fun _ _ => Or.inl rfl⟩
+    | _ => exact ⟨fun o h => h, fun o h => h, fun e h => h⟩
   | write x =>
     intro a
-    refine ⟨fun o h => ?_, fun o h => h⟩
+    refine ⟨fun o h => ?_, fun o h => h, fun e h => h⟩
     rcases h with h | h
     · exact Or.inl h
     · right; show o ∈ ((a.raw x).filter (· < np) ++ a.w).eraseDups; simp [h]
   | ret x =>
     intro a
-    refine ⟨fun o h => h, fun o h => ?_⟩
+    refine ⟨fun o h => h, fun o h => ?_, fun e h => h⟩
     rcases h with h | h
     · exact Or.inl h
-    · right; show o ∈ ((a.raw x).filter (· < np) ++ a.r).eraseDups; simp [h]
-  | store x l y => intro a; exact ⟨fun o h => h, fun o h => h⟩
+    · right; show o ∈ (a.raw x ++ a.r).eraseDups; simp [h]
+  | store x l y =>
+    intro a
+    refine ⟨fun o h => h, fun o h => h, fun e h => ?_⟩
+    rcases h with h | h
+    · exact Or.inl h
+    · right
+      show e ∈ ((a.raw x).flatMap (fun p => (a.raw y).map (fun p' => (p, l, p'))) ++ a.heap).eraseDups
+      rw [List.mem_eraseDups]
+      exact List.mem_append_right _ h
   | seq s t ihs iht =>
     intro a
-    exact ⟨fun o h => (iht _).1 o ((ihs a).1 o h), fun o h => (iht _).2 o ((ihs a).2 o h)⟩
+    exact ⟨fun o h => (iht _).1 o ((ihs a).1 o h), fun o h => (iht _).2.1 o ((ihs a).2.1 o h),
+           fun e h => (iht _).2.2 e ((ihs a).2.2 e h)⟩
   | branch s t ihs _ =>
     intro a
-    exact ⟨fun o h => mayW_join_l _ _ o ((ihs a).1 o h), fun o h => mayR_join_l _ _ o ((ihs a).2 o h)⟩
+    exact ⟨fun o h => mayW_join_l _ _ o ((ihs a).1 o h), fun o h => mayR_join_l _ _ o ((ihs a).2.1 o h),
+           fun e h => mayE_join_l _ _ e ((ihs a).2.2 e h)⟩
   | loop b _ =>
     intro a
     show (∀ o, a.mayW o → (match iter (ana np b) 12 a with
       | some a' => if leA (ana np b a') a' && leA a a' then a' else topA
       | none => topA).mayW o) ∧ (∀ o, a.mayR o → (match iter (ana np b) 12 a with
       | some a' => if leA (ana np b a') a' && leA a a' then a' else topA
-      | none => topA).mayR o)
+      | none => topA).mayR o) ∧ (∀ e, a.mayE e → (match iter (ana np b) 12 a with
+      | some a' => if leA (ana np b a') a' && leA a a' then a' else topA
+      | none => topA).mayE e)
     split
     · split
       · rename_i a' _ hc
         simp at hc
-        exact ⟨fun o h => le_mayW hc.2 o h, fun o h => le_mayR hc.2 o h⟩
-      · exact ⟨fun _ _ => Or.inl rfl, fun _ _ => Or.inl rfl⟩
-    · exact ⟨fun _ _ => Or.inl rfl, fun _ _ => Or.inl rfl⟩
+        exact ⟨fun o h => le_mayW hc.2 o h, fun o h => le_mayR hc.2 o h, fun e h => le_mayE hc.2 e h⟩
+      · exact ⟨fun _ _ => Or.inl rfl, fun _ _ => Or.inl rfl, fun _ _ => Or.inl rfl⟩
+    · exact ⟨fun _ _ => Or.inl rfl, fun _ _ => Or.inl rfl, fun _ _ => Or.inl rfl⟩
 
 theorem wrel_mono (np : Nat) (s : Stmt) {σ : St} {a : A} (h : WRel np σ a) : WRel np σ (ana np s a) :=
-  ⟨fun o h1 h2 => (w_mono np s a).1 _ (h.1 o h1 h2), fun o h1 h2 => (w_mono np s a).2 _ (h.2 o h1 h2)⟩
+  ⟨fun o h1 h2 => (w_mono np s a).1 _ (h.1 o h1 h2), fun o h1 => (w_mono np s a).2.1 _ (h.2.1 o h1),
+   fun e he => (w_mono np s a).2.2 _ (h.2.2 e he)⟩
 
 theorem loop_inv (np : Nat) (b : Stmt) (P Q : St → Prop)
     (hbody : ∀ σ σ₁, P σ → Exec np b σ true σ₁ → P σ₁)
@@ -355,20 +374,28 @@ theorem rel_alloc {np : Nat} {σ : St} {a : A} {x : Var} {k : Nat} {ps : List Na
     (hr : Rel np σ a) (hk : np + k ∈ ps) :
     Rel np { σ with env := upd σ.env x (np + k, σ.next), next := σ.next + 1, objs := (np + k, σ.next) :: σ.objs }
       { a.set x ps with alloc := ((np + k) :: a.alloc).eraseDups } := by
-  refine ⟨?_, hr.2.1, ?_, hr.2.2.2⟩
+  refine ⟨?_, ?_, hr.2.2⟩
   · exact env_bind (a := a) (σ := σ) hr.1 (Or.inr hk)
   · intro o ho
     simp at ho
     rcases ho with rfl | ho
     · right; show np + k ∈ ((np + k) :: a.alloc).eraseDups; simp
-    · rcases hr.2.2.1 o ho with ht | hm
+    · rcases hr.2.1 o ho with ht | hm
       · exact Or.inl ht
       · right; show o.1 ∈ ((np + k) :: a.alloc).eraseDups; simp [hm]
 
+/-- the allocated objects stay covered when only a site is added to `alloc` -/
+theorem objs_alloc {a : A} {σ : St} {k : Nat} (h : ∀ o, o ∈ σ.objs → a.mayK o.1) (ps : List Nat) (x : Var) :
+    ∀ o, o ∈ σ.objs → ({ a.set x ps with alloc := (k :: a.alloc).eraseDups } : A).mayK o.1 := by
+  intro o ho
+  rcases h o ho with ht | hm
+  · exact Or.inl ht
+  · right; show o.1 ∈ (k :: a.alloc).eraseDups; simp [hm]
+
 /-- Soundness of the abstract interpretation: for every program, every start state related to the
 abstract input and every execution (completed `d = true` or raised `d = false`), the final state is
-related to the abstract output (completed), and in both cases every written / returned parameter is
-reported. -/
+related to the abstract output (completed), and in both cases every written parameter, every returned object and
+every heap edge is covered by the abstract output. -/
 theorem sound (np : Nat) (s : Stmt) :
     ∀ (a : A) (σ : St) (d : Bool) (σ' : St), Exec np s σ d σ' → Rel np σ a →
       (d = true → Rel np σ' (ana np s a)) ∧ WRel np σ' (ana np s a) := by
@@ -376,67 +403,59 @@ theorem sound (np : Nat) (s : Stmt) :
   | skip =>
     intro a σ d σ' h hr
     cases h with
-    | raise => exact ⟨(fun h => by cases h), hr.2.2.2⟩
-    | skip => exact ⟨fun _ => hr, hr.2.2.2⟩
+    | raise => exact ⟨(fun h => by cases h), hr.2.2⟩
+    | skip => exact ⟨fun _ => hr, hr.2.2⟩
   | bind x src =>
     intro a σ d σ' h hr
     cases h with
-    | raise => exact ⟨(fun h => by cases h), wrel_mono np _ hr.2.2.2⟩
+    | raise => exact ⟨(fun h => by cases h), wrel_mono np _ hr.2.2⟩
     | bindParam _ i _ hi =>
       have : Rel np { σ with env := upd σ.env x (i, 0) } (a.set x [i]) :=
-        ⟨env_bind (a := a) (σ := σ) hr.1 (Or.inr (by simp)), hr.2.1, hr.2.2.1, hr.2.2.2⟩
-      exact ⟨fun _ => this, this.2.2.2⟩
+        ⟨env_bind (a := a) (σ := σ) hr.1 (Or.inr (by simp)), hr.2.1, hr.2.2⟩
+      exact ⟨fun _ => this, this.2.2⟩
     | bindFresh _ k =>
       have := rel_alloc (x := x) (k := k) (ps := [np + k]) hr (by simp)
-      exact ⟨fun _ => this, this.2.2.2⟩
+      exact ⟨fun _ => this, this.2.2⟩
     | bindAlias _ ys y o _ hy ho =>
       have : Rel np { σ with env := upd σ.env x o } (a.set x (ys.flatMap a.raw)) := by
-        refine ⟨env_bind (a := a) (σ := σ) hr.1 ?_, hr.2.1, hr.2.2.1, hr.2.2.2⟩
+        refine ⟨env_bind (a := a) (σ := σ) hr.1 ?_, hr.2.1, hr.2.2⟩
         rcases hr.1 y o ho with ht | hm
         · exact Or.inl ht
         · exact Or.inr (List.mem_flatMap.mpr ⟨y, hy, hm⟩)
-      exact ⟨fun _ => this, this.2.2.2⟩
+      exact ⟨fun _ => this, this.2.2⟩
     | bindLoadEdge _ ys l k y o l' o' _ hy ho he hl =>
       have : Rel np { σ with env := upd σ.env x o' }
           { a.set x ((np + k) :: ((ys.flatMap a.raw).filter (· < np) ++ targets a.heap (ys.flatMap a.raw) l)) with
             alloc := ((np + k) :: a.alloc).eraseDups } := by
-        refine ⟨?_, hr.2.1, ?_, hr.2.2.2⟩
-        · apply env_bind (a := a) (σ := σ) hr.1
-          rcases hr.1 y o ho with ht | hm
+        refine ⟨?_, objs_alloc hr.2.1 _ _, hr.2.2⟩
+        apply env_bind (a := a) (σ := σ) hr.1
+        rcases hr.1 y o ho with ht | hm
+        · exact Or.inl ht
+        · rcases hr.2.2.2.2 _ he with ht | hm'
           · exact Or.inl ht
-          · rcases hr.2.1 _ he with ht | hm'
-            · exact Or.inl ht
-            · right
-              apply List.mem_cons_of_mem
-              apply List.mem_append_right
-              exact mem_targets hm' (List.mem_flatMap.mpr ⟨y, hy, hm⟩) hl
-        · intro o₁ ho₁
-          rcases hr.2.2.1 o₁ ho₁ with ht | hm
-          · exact Or.inl ht
-          · right; show o₁.1 ∈ ((np + k) :: a.alloc).eraseDups; simp [hm]
-      exact ⟨fun _ => this, this.2.2.2⟩
+          · right
+            apply List.mem_cons_of_mem
+            apply List.mem_append_right
+            exact mem_targets hm' (List.mem_flatMap.mpr ⟨y, hy, hm⟩) hl
+      exact ⟨fun _ => this, this.2.2⟩
     | bindLoadSelf _ ys l k y o _ hy ho hp =>
       have : Rel np { σ with env := upd σ.env x o }
           { a.set x ((np + k) :: ((ys.flatMap a.raw).filter (· < np) ++ targets a.heap (ys.flatMap a.raw) l)) with
             alloc := ((np + k) :: a.alloc).eraseDups } := by
-        refine ⟨?_, hr.2.1, ?_, hr.2.2.2⟩
-        · apply env_bind (a := a) (σ := σ) hr.1
-          rcases hr.1 y o ho with ht | hm
-          · exact Or.inl ht
-          · right
-            apply List.mem_cons_of_mem
-            apply List.mem_append_left
-            rw [List.mem_filter]
-            exact ⟨List.mem_flatMap.mpr ⟨y, hy, hm⟩, by simpa using hp⟩
-        · intro o₁ ho₁
-          rcases hr.2.2.1 o₁ ho₁ with ht | hm
-          · exact Or.inl ht
-          · right; show o₁.1 ∈ ((np + k) :: a.alloc).eraseDups; simp [hm]
-      exact ⟨fun _ => this, this.2.2.2⟩
+        refine ⟨?_, objs_alloc hr.2.1 _ _, hr.2.2⟩
+        apply env_bind (a := a) (σ := σ) hr.1
+        rcases hr.1 y o ho with ht | hm
+        · exact Or.inl ht
+        · right
+          apply List.mem_cons_of_mem
+          apply List.mem_append_left
+          rw [List.mem_filter]
+          exact ⟨List.mem_flatMap.mpr ⟨y, hy, hm⟩, by simpa using hp⟩
+      exact ⟨fun _ => this, this.2.2⟩
     | bindLoadNew _ ys l k =>
       have := rel_alloc (x := x) (k := k)
         (ps := (np + k) :: ((ys.flatMap a.raw).filter (· < np) ++ targets a.heap (ys.flatMap a.raw) l)) hr (by simp)
-      exact ⟨fun _ => this, this.2.2.2⟩
+      exact ⟨fun _ => this, this.2.2⟩
     | bindReach _ ys y o o' _ hy ho hreach =>
       show (true = true → Rel np { σ with env := upd σ.env x o' }
           (if closedB a.heap (closeN a.heap (a.heap.length + 1) (ys.flatMap a.raw).eraseDups) then
@@ -448,34 +467,34 @@ theorem sound (np : Nat) (s : Stmt) :
       · rename_i hc
         have : Rel np { σ with env := upd σ.env x o' }
             (a.set x (closeN a.heap (a.heap.length + 1) (ys.flatMap a.raw).eraseDups)) := by
-          refine ⟨env_bind (a := a) (σ := σ) hr.1 ?_, hr.2.1, hr.2.2.1, hr.2.2.2⟩
+          refine ⟨env_bind (a := a) (σ := σ) hr.1 ?_, hr.2.1, hr.2.2⟩
           by_cases hnt : a.top = true
           · exact Or.inl hnt
           · right
             rcases hr.1 y o ho with ht | hm
             · exact absurd ht hnt
-            · apply reach_closed hnt hr.2.1 hc hreach
+            · apply reach_closed hnt hr.2.2.2.2 hc hreach
               apply closeN_mono
               rw [List.mem_eraseDups]
               exact List.mem_flatMap.mpr ⟨y, hy, hm⟩
-        exact ⟨fun _ => this, this.2.2.2⟩
-      · exact ⟨fun _ => rel_top, rel_top.2.2.2⟩
+        exact ⟨fun _ => this, this.2.2⟩
+      · exact ⟨fun _ => rel_top, wrel_top⟩
     | bindUnknown _ o _ ho =>
       have : Rel np { σ with env := upd σ.env x o } (a.set x (allParams np ++ a.alloc)) := by
-        refine ⟨env_bind (a := a) (σ := σ) hr.1 ?_, hr.2.1, hr.2.2.1, hr.2.2.2⟩
+        refine ⟨env_bind (a := a) (σ := σ) hr.1 ?_, hr.2.1, hr.2.2⟩
         rcases ho with hp | hm
         · right; simp [allParams, hp]
-        · rcases hr.2.2.1 o hm with ht | hk
+        · rcases hr.2.1 o hm with ht | hk
           · exact Or.inl ht
           · right; simp [hk]
-      exact ⟨fun _ => this, this.2.2.2⟩
+      exact ⟨fun _ => this, this.2.2⟩
   | write x =>
     intro a σ d σ' h hr
     cases h with
-    | raise => exact ⟨(fun h => by cases h), wrel_mono np _ hr.2.2.2⟩
+    | raise => exact ⟨(fun h => by cases h), wrel_mono np _ hr.2.2⟩
     | write _ o _ ho =>
       have : Rel np { σ with written := o :: σ.written } { a with w := ((a.raw x).filter (· < np) ++ a.w).eraseDups } := by
-        refine ⟨fun y o' hy => hr.1 y o' hy, hr.2.1, hr.2.2.1, ⟨?_, fun o' hm ho' => hr.2.2.2.2 o' hm ho'⟩⟩
+        refine ⟨fun y o' hy => hr.1 y o' hy, hr.2.1, ⟨?_, hr.2.2.2.1, hr.2.2.2.2⟩⟩
         intro o' hm ho'
         simp at hm
         rcases hm with rfl | hm
@@ -484,37 +503,37 @@ theorem sound (np : Nat) (s : Stmt) :
           · right
             show o'.1 ∈ ((a.raw x).filter (· < np) ++ a.w).eraseDups
             simp [hm', ho']
-        · rcases hr.2.2.2.1 o' hm ho' with ht | hm'
+        · rcases hr.2.2.1 o' hm ho' with ht | hm'
           · exact Or.inl ht
           · right; show o'.1 ∈ ((a.raw x).filter (· < np) ++ a.w).eraseDups; simp [hm']
-      exact ⟨fun _ => this, this.2.2.2⟩
+      exact ⟨fun _ => this, this.2.2⟩
   | ret x =>
     intro a σ d σ' h hr
     cases h with
-    | raise => exact ⟨(fun h => by cases h), wrel_mono np _ hr.2.2.2⟩
+    | raise => exact ⟨(fun h => by cases h), wrel_mono np _ hr.2.2⟩
     | ret _ o _ ho =>
-      have : Rel np { σ with returned := o :: σ.returned } { a with r := ((a.raw x).filter (· < np) ++ a.r).eraseDups } := by
-        refine ⟨fun y o' hy => hr.1 y o' hy, hr.2.1, hr.2.2.1, ⟨fun o' hm ho' => hr.2.2.2.1 o' hm ho', ?_⟩⟩
-        intro o' hm ho'
+      have : Rel np { σ with returned := o :: σ.returned } { a with r := (a.raw x ++ a.r).eraseDups } := by
+        refine ⟨fun y o' hy => hr.1 y o' hy, hr.2.1, ⟨hr.2.2.1, ?_, hr.2.2.2.2⟩⟩
+        intro o' hm
         simp at hm
         rcases hm with rfl | hm
         · rcases hr.1 x o' ho with ht | hm'
           · exact Or.inl ht
           · right
-            show o'.1 ∈ ((a.raw x).filter (· < np) ++ a.r).eraseDups
-            simp [hm', ho']
-        · rcases hr.2.2.2.2 o' hm ho' with ht | hm'
+            show o'.1 ∈ (a.raw x ++ a.r).eraseDups
+            simp [hm']
+        · rcases hr.2.2.2.1 o' hm with ht | hm'
           · exact Or.inl ht
-          · right; show o'.1 ∈ ((a.raw x).filter (· < np) ++ a.r).eraseDups; simp [hm']
-      exact ⟨fun _ => this, this.2.2.2⟩
+          · right; show o'.1 ∈ (a.raw x ++ a.r).eraseDups; simp [hm']
+      exact ⟨fun _ => this, this.2.2⟩
   | store x l y =>
     intro a σ d σ' h hr
     cases h with
-    | raise => exact ⟨(fun h => by cases h), wrel_mono np _ hr.2.2.2⟩
+    | raise => exact ⟨(fun h => by cases h), wrel_mono np _ hr.2.2⟩
     | store _ _ _ o o' _ ho ho' =>
       have : Rel np { σ with heap := (o, l, o') :: σ.heap }
           { a with heap := ((a.raw x).flatMap (fun p => (a.raw y).map (fun p' => (p, l, p'))) ++ a.heap).eraseDups } := by
-        refine ⟨fun z o₁ hz => hr.1 z o₁ hz, ?_, hr.2.2.1, hr.2.2.2⟩
+        refine ⟨fun z o₁ hz => hr.1 z o₁ hz, hr.2.1, ⟨hr.2.2.1, hr.2.2.2.1, ?_⟩⟩
         intro e he
         simp at he
         rcases he with rfl | he
@@ -528,17 +547,17 @@ theorem sound (np : Nat) (s : Stmt) :
               apply List.mem_append_left
               rw [List.mem_flatMap]
               exact ⟨o.1, hm, List.mem_map.mpr ⟨o'.1, hm', rfl⟩⟩
-        · rcases hr.2.1 e he with ht | hm
+        · rcases hr.2.2.2.2 e he with ht | hm
           · exact Or.inl ht
           · right
             show absE e ∈ ((a.raw x).flatMap (fun p => (a.raw y).map (fun p' => (p, l, p'))) ++ a.heap).eraseDups
             rw [List.mem_eraseDups]
             exact List.mem_append_right _ hm
-      exact ⟨fun _ => this, this.2.2.2⟩
+      exact ⟨fun _ => this, this.2.2⟩
   | seq s t ihs iht =>
     intro a σ d σ' h hr
     cases h with
-    | raise => exact ⟨(fun h => by cases h), wrel_mono np _ hr.2.2.2⟩
+    | raise => exact ⟨(fun h => by cases h), wrel_mono np _ hr.2.2⟩
     | seq _ _ _ σ₁ _ _ h1 h2 =>
       exact iht _ σ₁ d σ' h2 ((ihs a σ true σ₁ h1 hr).1 rfl)
     | seqRaise _ _ _ _ h1 =>
@@ -546,7 +565,7 @@ theorem sound (np : Nat) (s : Stmt) :
   | branch s t ihs iht =>
     intro a σ d σ' h hr
     cases h with
-    | raise => exact ⟨(fun h => by cases h), wrel_mono np _ hr.2.2.2⟩
+    | raise => exact ⟨(fun h => by cases h), wrel_mono np _ hr.2.2⟩
     | branchL _ _ _ _ _ h1 =>
       have := ihs a σ d σ' h1 hr
       exact ⟨fun hd => rel_join_l _ _ (this.1 hd), wrel_join_l _ _ this.2⟩
@@ -566,8 +585,8 @@ theorem sound (np : Nat) (s : Stmt) :
       exact loop_inv np b (fun τ => Rel np τ a') (fun τ => WRel np τ a')
         (fun τ τ₁ hp he => rel_le hpost ((ih a' τ true τ₁ he hp).1 rfl))
         (fun τ τ₁ hp he => wrel_le hpost (ih a' τ false τ₁ he hp).2)
-        (fun τ hp => hp.2.2.2) σ d σ' h hra
-    have htop : (d = true → Rel np σ' topA) ∧ WRel np σ' topA := ⟨fun _ => rel_top, rel_top.2.2.2⟩
+        (fun τ hp => hp.2.2) σ d σ' h hra
+    have htop : (d = true → Rel np σ' topA) ∧ WRel np σ' topA := ⟨fun _ => rel_top, wrel_top⟩
     split
     · split
       · rename_i a' _ hc
